@@ -23,11 +23,13 @@ Inductive step :=
 | SLast                      (* it.by_ref().last() *)
 | SLen                       (* it.len() *)
 | SNextBack                  (* it.next_back()                    -- ChannelsRef / ChannelsMut only *)
-| SRevTake (t : nat).        (* it.by_ref().rev().take(t).collect() -- ChannelsRef / ChannelsMut only *)
+| SRevTake (t : nat)         (* it.by_ref().rev().take(t).collect() -- ChannelsRef / ChannelsMut only *)
+| SClonePeek.                (* let mut c = it.clone(); (c.next(), c.len()); `it` itself is not touched
+                                -- Channels / ChannelsRef (both #[derive(Clone)]; ChannelsMut is not Clone) *)
 
 Inductive sobs (A : Type) :=
-| OOpt (o : option A) | OList (l : list A) | ONat (n : res nat) | OUnsupported.
-Arguments OOpt {A} o. Arguments OList {A} l. Arguments ONat {A} n. Arguments OUnsupported {A}.
+| OOpt (o : option A) | OList (l : list A) | ONat (n : res nat) | OUnsupported | OPeek (o : option A) (n : res nat).
+Arguments OOpt {A} o. Arguments OList {A} l. Arguments ONat {A} n. Arguments OUnsupported {A}. Arguments OPeek {A} o n.
 
 Definition last_error {A} (l : list A) : option A :=
   match l with [] => None | x :: t => Some (last t x) end.
@@ -87,6 +89,8 @@ Definition run_step_via (fuel : nat) (s : step) (st : St) : sobs A * St :=
   | SLast => let (l, st') := drain_via fuel st in (OOpt (last_error l), st')
   | SLen => (ONat (len st), st)
   | SNextBack | SRevTake _ => (OUnsupported, st)
+  (* a clone is a copy of the state: what its next() returns and the len() it then reports; the original keeps its state *)
+  | SClonePeek => let (o, st') := next st in (OPeek o (len st'), st)
   end.
 
 Fixpoint run_script_via (fuel : nat) (sc : list step) (st : St) : list (sobs A) * St :=
@@ -126,6 +130,7 @@ Definition run_step_list (s : step) (l : list A) : sobs A * list A :=
   | SLen => (ONat (Ok (length l)), l)
   | SNextBack => (OOpt (last_error l), removelast l)
   | SRevTake t => (OList (firstn t (rev l)), firstn (length l - t) l)
+  | SClonePeek => (OPeek (hd_error l) (Ok (length (tl l))), l)
   end.
 
 Fixpoint run_script_list (sc : list step) (l : list A) : list (sobs A) * list A :=
